@@ -219,21 +219,37 @@ class _K(object):
             dt, mn, mx = gen_doc.dtype_of(node)
             return _present(cur) and (node.codes or node.external) and node.usage != 'N' and _plain_site(i, node, ep, sp, cur, doc) and dt == 'ID' \
                 and (not node.external or node.external in CODES)
-        s = _sites(rng, doc, pred)
-        if not s:
+        all_sites = [x for x in element_sites(doc, None) if pred(*x)]
+        if not all_sites:
             return None
-        i, node, ep, sp, cur = s
+
+        def earlier_values(i, node, external_only):
+            dt, mn, mx = gen_doc.dtype_of(node)
+            own = set(node.codes) | set(CODES.get(node.external, []) if node.external else [])
+            out = []
+            for (j, n2, e2, s2, c2) in element_sites(doc, None):
+                if j >= i:
+                    break
+                if _present(c2) and (n2.codes or n2.external) and mn <= len(c2) <= mx and c2 not in own and c2.isalnum() and c2.isupper():
+                    if not external_only or (n2.external and n2.external != node.external and c2 in CODES.get(n2.external, ())):
+                        out.append(c2)
+            return out
+        cands = []
+        # directed half: an element bound to an external code set, given a value that an earlier element of the same document
+        # legitimately carried as a member of ANOTHER external code set (a lookup cache keyed too coarsely accepts it)
+        cross = [x for x in all_sites if x[1].external and earlier_values(x[0], x[1], True)] if rng.random() < 0.5 else []
+        if cross:
+            i, node, ep, sp, cur = rng.choice(cross)
+            cands.append(rng.choice(earlier_values(i, node, True)))
+            note = 'member-of-another-external-set-seen-earlier'
+        else:
+            i, node, ep, sp, cur = rng.choice(all_sites)
+            note = None
         dt, mn, mx = gen_doc.dtype_of(node)
         own = set(node.codes) | set(CODES.get(node.external, []) if node.external else [])
         # "valid elsewhere, invalid here": values that occur earlier in the document, members of other code lists / code sets
-        seen_before = []
-        for (j, n2, e2, s2, c2) in element_sites(doc, None):
-            if j >= i:
-                break
-            if _present(c2) and (n2.codes or n2.external) and mn <= len(c2) <= mx and c2 not in own and c2.isalnum() and c2.isupper():
-                seen_before.append(c2)
-        cands = []
-        if seen_before and rng.random() < 0.6:
+        seen_before = earlier_values(i, node, False)
+        if not cands and seen_before and rng.random() < 0.6:
             cands.append(rng.choice(seen_before))
         cands += ['ZZ', 'Z', 'QQQ', 'ZZZZ', 'Q9', 'X7X', 'ZQZQZ', 'Q', 'ZZZZZZ']
         for cand in cands:
@@ -244,7 +260,7 @@ class _K(object):
             return None
         d = clone(doc)
         set_value(d.recs[i], ep, sp, v)
-        return _mk(d, 'bad_code', i, ep, sp, ['7'], v)
+        return _mk(d, 'bad_code', i, ep, sp, ['7'], v, note=note if (cands and v == cands[0]) else None)
 
     @staticmethod
     def bad_char(rng, doc):
